@@ -29,20 +29,60 @@ func RenameArgumentsAction(newNames []string) RewriteAction {
 			return []ast.Option{option}
 		}
 
+		// The old → new mapping is computed up-front: renames are applied
+		// simultaneously (`[a, b]` → `[b, a]` is a swap), and to every place
+		// where an argument is used.
+		renames := make(map[string]string, len(option.Args))
 		for i, arg := range option.Args {
-			previousName := arg.Name
+			if _, found := renames[arg.Name]; !found {
+				renames[arg.Name] = newNames[i]
+			}
 			option.Args[i].Name = newNames[i]
+		}
 
-			for j, assignment := range option.Assignments {
-				if assignment.Value.Argument != nil && assignment.Value.Argument.Name == previousName {
-					option.Assignments[j].Value.Argument.Name = newNames[i]
+		// an argument might be referenced more than once via the same pointer
+		renamed := make(map[*ast.Argument]struct{})
+		rename := func(arg *ast.Argument) {
+			if _, done := renamed[arg]; done {
+				return
+			}
+			if newName, found := renames[arg.Name]; found {
+				arg.Name = newName
+			}
+			renamed[arg] = struct{}{}
+		}
+
+		for i := range option.Assignments {
+			assignment := &option.Assignments[i]
+
+			renameArgumentsInValue(&assignment.Value, rename)
+
+			for j := range assignment.Path {
+				if assignment.Path[j].Index != nil && assignment.Path[j].Index.Argument != nil {
+					rename(assignment.Path[j].Index.Argument)
 				}
+			}
+
+			for j := range assignment.Constraints {
+				rename(&assignment.Constraints[j].Argument)
 			}
 		}
 
 		option.AddToVeneerTrail("RenameArguments")
 
 		return []ast.Option{option}
+	}
+}
+
+func renameArgumentsInValue(value *ast.AssignmentValue, rename func(arg *ast.Argument)) {
+	if value.Argument != nil {
+		rename(value.Argument)
+	}
+
+	if value.Envelope != nil {
+		for i := range value.Envelope.Values {
+			renameArgumentsInValue(&value.Envelope.Values[i].Value, rename)
+		}
 	}
 }
 
